@@ -1,5 +1,6 @@
 # Campaigns for the evaluator: C02–C07, C11–C18 (run mode: stdout, stderr, flags)
 import itertools, zlib
+import re as _re
 from fractions import Fraction
 from .core import *
 from .gen import *
@@ -22,7 +23,7 @@ PRELUDE = (f'{VAR} A = [1, 2];\n{VAR} B = A;\n{VAR} E1 = [];\n{VAR} E2 = [];\n{V
 
 VALUES = ['nil', TRUE, FALSE,
           '0', '(-0)', '1', '(-1)', '0.5', '2.5', '(-2.5)', '3', '7', '(-7)', '63', '64', '65', '2147483648', '9007199254740992', '9007199254740993',
-          '9223372036854775807', '9223372036854775808', '(-9223372036854775808)', '(-9223372036854775809)', '18446744073709551616', '(10 ** 308)', 'INF', '(-INF)', 'NAN',
+          '9223372036854775807', '9223372036854775808', '(-9223372036854775808)', '(-9223372036854775809)', '18446744073709551616', '1' + '0' * 308, 'INF', '(-INF)', 'NAN',
           '1000000', '123456789', '0.1', '0.2', '4294967295', '1.5',
           '""', '"a"', '"abc"', '"12"', '"3.5"', '"০৭"', '" 1"', '"1e2"', '"0x10"', '"inf"', '"nan"', '"-"', '"true"', '"1_0"', '"-5"', '"9223372036854775808"', '"0.5"',
           '[]', '[1]', 'A', 'B', 'E1', 'E2', '[1, 2]', '{}', 'O', 'Q', '({p: 1})', 'f', 'g', N['len'], N['sqrt'], N['len']]
@@ -137,9 +138,12 @@ def c03(tier, rng):
             elif h == '{': out.append(ind + '{'); stack.append('}')
             elif h == 'if{': out.append(f'{ind}{IF} ({TRUE}) {{'); stack.append('}')
             elif h == 'for{': out.append(f'{ind}{FOR} ({VAR} a = {k}; a < {k + 1}; a = a + 1) {{'); stack.append('}')
-            elif h == 'F{': out.append(f'{ind}{FUN} f() {{'); stack.append('}')
+            elif h == 'F{': out.append(f'{ind}{FUN} f() {{'); stack.append('F')
             elif h == 'Df': out.append(f'{ind}{FUN} a() {{ {P} "fa"; }}')
-            elif h == 'call': out.append(f'{ind}f();')
+            elif h == 'call':
+                if 'F' in stack:
+                    return None        # a call of f inside f never terminates (unbounded recursion: see C07)
+                out.append(f'{ind}f();')
             elif h == '}':
                 if not stack:
                     return None
@@ -281,7 +285,7 @@ def c04(tier, rng):
     rule = (f'return at first/middle/last position inside every nesting of depth <= {depth} of block/if/else/while/for (with and without a value); recursion (direct, mutual, accumulator) to depth 150; '
             f'every interleaving of <= {L} calls on two counter-factory instances with three closures each; closures created per iteration of while/for/block/nested bodies and called after the loop in every order; '
             f'arity 0..4 against 0- and 2-parameter functions; every value kind as callee; {len(misc)} function-value shapes; {n} random programs. Non-trivial = prints or diagnoses.')
-    return {'cases': cases, 'rule': rule, 'exhaustive': True, 'fuel': 60000}
+    return {'cases': cases, 'rule': rule, 'exhaustive': True, 'fuel': 12000}
 
 # ---------------------------------------------------------------- C05
 
@@ -624,12 +628,13 @@ def c07(tier, rng):
             # token-level mutation of a valid program (still syntactically valid most of the time)
             toks = src.split(' ')
             k = r.below(len(toks))
-            toks[k] = r.choice(['nil', '[]', '{}', '0', '-1', '""', 'f', TRUE, toks[k]])
+            if not _re.fullmatch(r'[iw]\d+;?\)?', toks[k]):      # loop counters stay: the programs must terminate
+                toks[k] = r.choice(['nil', '[]', '{}', '0', '-1', '""', 'f', TRUE, toks[k]])
             src = ' '.join(toks)
         cases.append(prog_case(src, 'random-faulty'))
     rule = (f'17 indexing/property/call/store/operator forms x {len(kv)}^2 value kinds and boundary magnitudes; every built-in x 0..3 arguments x every kind; recursion to depth 400, values and expressions nested 400 deep; '
             f'{n} seeded grammar-based programs with a 6% fault rate, a third of them token-mutated; the two known findings (cyclic value printed, unbounded recursion) are replayed on every run. Non-trivial = prints or diagnoses.')
-    return {'cases': cases, 'rule': rule, 'exhaustive': True, 'fuel': 40000, 'timeout_ms': 20000}
+    return {'cases': cases, 'rule': rule, 'exhaustive': True, 'fuel': 10000, 'timeout_ms': 20000}
 
 # ---------------------------------------------------------------- C11
 
@@ -1000,6 +1005,8 @@ def c16(tier, rng):
     def emit(kind, value, producers, lit_text, stdin):
         for ci, ctx in enumerate(contexts):
             for pi, prod in enumerate(producers):
+                if N['input'] in prod and ('{INP}' in ctx or ctx.replace('H2', '').count('H') > 1):
+                    continue        # two reads in one program: not the same stdin position
                 src = pre + sub(ctx).replace('H2', lit_text).replace('H', prod) + '\n'
                 cases.append(prog_case(src, f'{kind}-context', stdin=stdin, group=f'{kind}:{value}:{ci}', note=(pi, prod)))
     for lit in ['abc', '', '12', '3', 'k', '০৭', 'a b']:
@@ -1028,7 +1035,7 @@ def oracle_same_in_group(cases):
 
 # ---------------------------------------------------------------- C17
 
-NUM_ARGS = ['0', '(-0)', '0.5', '(-0.5)', '1.5', '(-1.5)', '2.5', '(-2.5)', '0.49999999999999994', '4503599627370496.5', '4503599627370497', '9007199254740993', '(10 ** 308)', '5e', '(10 ** 400)', '(-(10 ** 400))',
+NUM_ARGS = ['0', '(-0)', '0.5', '(-0.5)', '1.5', '(-1.5)', '2.5', '(-2.5)', '0.49999999999999994', '4503599627370496.5', '4503599627370497', '9007199254740993', '1' + '0' * 308, '5e', '(10 ** 400)', '(-(10 ** 400))',
             '(10 ** 400 - 10 ** 400)', '4', '2', '16', '0.25', '(-4)', '3', '(-3)', '1', '(-1)', '"9"', '"2.5"', '"x"', '1000000', '0.1']
 
 def c17(tier, rng):
@@ -1106,7 +1113,7 @@ def oracle_c17(cases):
 
 TT_NUMBER, TT_IDENT, TT_STRING, TT_VAR, TT_SEMI, TT_DOT, TT_COLON, TT_SLASH = 32, 30, 31, 47, 10, 7, 11, 12
 COMMENTS = ['/* c */', '/**/', '/* ** */', '/***/', '/* x **/', '/** doc */', '/* a\n b */', '/* * / */', '/*/ */', '/* "q */']
-FRESH = ['zq1', 'zq2x', 'Zq3', 'ঝঞ১', 'ঝঞ_২', 'zq_6', 'ঝঝ৭', 'zq8', 'zq9', 'zq10', 'zq11', 'zq12']
+FRESH = ['zqA1', 'zqB2x', 'ZqC3', 'ঝঞক১', 'ঝঞ_খ২', 'zq_D6', 'ঝঝগ৭', 'zqE8', 'zqF9', 'zqG0', 'zqH1', 'zqJ2', 'zqK_', 'ঝঞঘ', 'zqL5', 'zqM6']
 
 def lexemes_of(sources):
     resp = run_impl([req('lex', s_) for s_ in sources])
@@ -1265,7 +1272,7 @@ def norm_out(resp, back=None):
     o, e = untext(f['O']), untext(f.get('E', ''))
     e = _re.sub(r'\[line \d+\]', '[line N]', e)
     if back:
-        for new, old in back.items():
+        for new, old in sorted(back.items(), key=lambda kv: -len(kv[0])):
             o, e = o.replace(new, old), e.replace(new, old)
     return (o, e, f.get('F'))
 
